@@ -76,7 +76,7 @@ PROP = {'gen': [],
  'technique': 'Coq proof (sorted-table nearest search, per-channel separability, mean argument for greys) + regenerated tables + '
               'model/implementation correspondence by the property with a stated tolerance',
  'design_ref': 'DESIGN.md 6.20',
- 'n_quick': 2500,
+ 'n_quick': 1500,
  'n_thorough': 200000,
  'shard': 1000,
  'level': 'proof',
